@@ -73,6 +73,9 @@ def drive(ctx):
             all_hows(dict(mk_dt(z, [2020, 5, 17, 1, 2, 3, 4], 0), nm=cps(nm)))
             all_hows({"k": "time", "w": [1, 2, 3, 4], "cls": "Time", "z": z, "zk": "fixed", "nm": cps(nm)})
             all_hows({"k": "time", "w": [23, 59, 59, 0], "cls": "Time", "z": z, "zk": "fixed"})
+        # Times carrying an IANA zone (utcoffset() of such a time is None: the zone needs a date)
+        for zn in ("Europe/Paris", "America/New_York", "Asia/Kathmandu", "Australia/Lord_Howe", "UTC"):
+            all_hows({"k": "time", "w": [12, 34, 56, 7], "cls": "Time", "z": {"n": zn, "fo": 0}, "zk": "pendulum"})
         da = {"k": "date", "w": [2024, 1, 31], "cls": "Date"}
         db = {"k": "date", "w": [2025, 3, 1], "cls": "Date"}
         ua = mk_dt(UTCZ, [2024, 1, 31, 10, 0, 0, 0], 0)
